@@ -114,7 +114,9 @@ def features(t, sholl_rs, protocol=None, order_seed=None):
 
         def b_sholl():
             if n > 1:
-                out["sholl"] = [int(v) for v in Sholl(t).get(steps=list(sholl_rs))]
+                sh = Sholl(t)
+                out["sholl"] = [int(v) for v in sh.get(steps=list(sholl_rs))]
+                out["sholl_rmax"] = float(sh.rmax)      # the largest radial distance, as the Sholl analysis reports it
 
         def b_angles():
             angles, pas = [], []
@@ -536,6 +538,40 @@ class Metamorphic(Suite):
             else:
                 c.update(shift=[rng.choice([-1, 1]) * rng.choice(FAR_SHIFTS) for _ in range(3)])
             out.append(c)
+        # neurons READ FROM AN SWC FILE ON DISK by path (Tree.from_swc(path), the path spelled absolute or relative to the current directory;
+        # tree.source is the file), the way every real workflow gets its trees; the changed copy is made by the library's transforms from the
+        # loaded tree (or from a second load of the same file), a renumbering is saved again - over the same file or beside it.  Both
+        # are measured in the same process, some through whole-tree calls of the entry points first (Sholl / extract_feature(..).get("sholl")).
+        k = 0
+        for rep in range(10 if not big else 30):
+            n = [8, 13, 21, 5, 34][rep % 5]
+            shape = ["random", "binary", "caterpillar", "stem", "highdeg", "star"][rep % 6]
+            t = gen.tree_case(rng, n, shape, numbering=rng.choice(["sorted", "root0"]), coords="dyadic", types="soma3")
+            t["xyz"] = [[c / 64.0 for c in p] for p in t["xyz"]]
+            t["r"] = [max(0.125, v / 16.0) for v in t["r"]]
+            if len({tuple(p) for p in t["xyz"]}) != t["n"]:
+                continue
+            if rep % 3 == 1:
+                t = spiny(rng, t)
+            for kind in ["scale", "unit", "rigid", "relabel", "far"]:
+                k += 1
+                load = {"spelling": rng.choice(["absolute", "relative"]), "name": rng.choice(["neuron.swc", "a b.swc", "cell-01.SWC"])}
+                c = {"class": f"file/{kind}", "tree": t, "kind": {"unit": "scale"}.get(kind, kind), "load": load,
+                     "source": rng.choice(["measured", "fresh"])}
+                if rng.random() < 0.5:
+                    c.update(protocol=[rng.choice(["sholl.steps7", "ef.sholl", "ef.node_radial_distance", "ef.length", "lm.n_tips"])
+                                       for _ in range(rng.randint(1, 2))], order_seed=rng.randrange(10**6))
+                if kind == "rigid":
+                    c.update(_motion(rng) if rng.random() < 0.7 else _axis_motion(rng))
+                elif kind == "relabel":
+                    c.update(perm_seed=rng.randrange(10**6)); load["resave"] = rng.choice(["same-file", "other-file"])
+                elif kind == "scale":
+                    c.update(s=rng.choice([0.5, 2.0, 3.0, 0.25, 1.5, 4.0, round(rng.uniform(0.3, 5.0), 3)]))
+                elif kind == "unit":
+                    c.update(s=UNIT_SCALES[k % len(UNIT_SCALES)])
+                else:
+                    c.update(shift=[rng.choice([-1, 1]) * rng.choice(FAR_SHIFTS) for _ in range(3)])
+                out.append(c)
         # get_volume as it is called by default: the Monte-Carlo accuracy levels (5 .. 9, "middle", "high", no argument, through
         # extract_feature), on neurons where their extra term is not zero - a furcation whose daughters leave side by side and overlap
         # outside the node sphere (`bundle`).  Trifurcations (and 4-furcations in the wide search) under renumberings that change the order
@@ -573,10 +609,41 @@ class Metamorphic(Suite):
         return rs[:8] or [max(rad) * 2 + 1.0]
 
     def run(self, case):
+        if not case.get("load"):
+            return self._run(case, gen.make_tree)
+        # the neuron lives in an SWC file: every tree of the case is read from disk by path
+        import shutil, tempfile
+        from swcgeom.core import Tree
+
+        load = case["load"]
+        tmp = tempfile.mkdtemp(prefix="c11_")
+        cwd = os.getcwd()
+        made = []
+
+        def build(tc):
+            idx = made.index(tc) if tc in made else len(made)
+            name = load["name"] if idx == 0 or load.get("resave") != "other-file" else f"renumbered-{idx}-" + load["name"]
+            full = os.path.join(tmp, name)
+            if tc not in made:                      # a second load of the same neuron re-reads the file as it is
+                made.append(tc)
+                with open(full, "w", encoding="utf-8") as f:
+                    f.write("# generated\n" + "".join(
+                        f"{i + 1} {tc['types'][i]} {' '.join(repr(float(np.float32(v))) for v in tc['xyz'][i])} "
+                        f"{float(np.float32(tc['r'][i]))!r} {tc['pids'][i] + 1 if tc['pids'][i] >= 0 else -1}\n" for i in range(tc["n"])))
+            return Tree.from_swc(name if load["spelling"] == "relative" else full)
+
+        try:
+            os.chdir(tmp)
+            return self._run(case, build)
+        finally:
+            os.chdir(cwd)
+            shutil.rmtree(tmp, ignore_errors=True)
+
+    def _run(self, case, make_tree):
         import random as _r
         from swcgeom.transforms import Rotate, Scale, Translate
 
-        t0 = gen.make_tree(case["tree"])
+        t0 = make_tree(case["tree"])
         rs = self._radii(case["tree"])
         proto, order = case.get("protocol"), case.get("order_seed")
         feats = features
@@ -596,7 +663,7 @@ class Metamorphic(Suite):
         f0 = feats(t0, rs, proto, order)
         kind = case["kind"]
         if case.get("source") == "fresh":      # the changed copy is made from a newly built object, not from the one just measured
-            t0 = gen.make_tree(case["tree"])
+            t0 = make_tree(case["tree"])
         with warnings.catch_warnings():
             warnings.simplefilter("ignore")
             if kind == "rigid":
@@ -615,7 +682,7 @@ class Metamorphic(Suite):
                 t1.ndata["r"] = t1.ndata["r"] * np.float32(s)
                 f1 = feats(t1, [r * s for r in rs], proto, order)
             else:
-                t1 = gen.make_tree((relabel_siblings if case.get("siblings") else relabel)(_r.Random(case["perm_seed"]), case["tree"]))
+                t1 = make_tree((relabel_siblings if case.get("siblings") else relabel)(_r.Random(case["perm_seed"]), case["tree"]))
                 f1 = feats(t1, rs, proto, order)
         out = {"before": f0, "after": f1}
         if kind == "rigid":
@@ -671,9 +738,13 @@ class Metamorphic(Suite):
         what = {"rigid": "rotating/translating the neuron", "relabel": "renumbering the nodes", "scale": f"scaling by {s}",
                 "far": f"translating the neuron by {case.get('shift')} (exactly representable)"}.get(kind, kind)
         proto = f"; both measured by the calls {case['protocol']} followed by the morphometrics, on one Tree object each" if case.get("protocol") else ""
-        for key, power in (("length", 1), ("branch_length", 1), ("path_length", 1), ("radial", 1), ("volume", 3),
+        if case.get("load"):
+            proto += f"; the neuron was read from an SWC file by its {case['load'].get('spelling')} path (Tree.from_swc)"
+        for key, power in (("length", 1), ("branch_length", 1), ("path_length", 1), ("radial", 1), ("sholl_rmax", 1), ("volume", 3),
                            ("branch_tortuosity", 0), ("path_tortuosity", 0), ("angles", 0), ("partition_asymmetry", 0)):
             x, y = a.get(key), b.get(key)
+            if key == "sholl_rmax" and x is None and y is None and case["tree"]["n"] <= 1:
+                continue
             if x is None or y is None:
                 out.append((f"{kind}-changes-{key}", f"{key} missing: {x} / {y}"))
                 continue
